@@ -32,10 +32,12 @@ def run_encode_cases(cases, rec, props, after=None, reach=True):
             # a call made just before in the same process (state keyed by a part of the arguments must not leak)
             call(case['pre'])
         monitors.State.last = None
+        monitors.State.seq_last = None
         rec.count('evaluations')
         q, ex = call(case)
         if ex is None:
             rec.count('accepted')
+            check_forwarding(case, rec, sorted(props)[0] if props else 'C14')
         else:
             rec.count('refused:%s' % type(ex).__name__)
         if after is not None:
@@ -109,3 +111,29 @@ def suite_under_monitors(props, rec):
     rec.distinct.update(d['distinct'])
     if ' passed' not in tail or ' failed' in tail:
         rec.extra.setdefault('problems_suite', []).append('repository suite did not pass under the monitors: %s' % tail[:200])
+
+
+PUBLIC_DEFAULTS = {'error': None, 'version': None, 'mode': None, 'mask': None, 'encoding': None, 'eci': False, 'boost_error': True}
+
+
+def check_forwarding(case, rec, prop):
+    """The contract sits on encoder.encode, i.e. behind the public factories: what the user passed to make / make_qr /
+    make_micro / make_sequence must be what the encoder was given (a wrapper that drops or swaps a keyword would
+    otherwise be judged against the wrong request)."""
+    fn = case.get('fn', 'make')
+    kw = case.get('kw', {})
+    if fn == 'make_sequence':
+        seen = monitors.State.seq_last[0] if monitors.State.seq_last else None
+        want = dict(PUBLIC_DEFAULTS, symbol_count=None)
+        want.pop('eci')
+    else:
+        seen = monitors.State.last[0] if monitors.State.last else None
+        want = dict(PUBLIC_DEFAULTS)
+        want['micro'] = {'make': None, 'make_qr': False, 'make_micro': True}[fn]
+    if seen is None:
+        return
+    want.update(kw)
+    bad = {k: (seen.get(k), v) for k, v in want.items() if k in seen and not (seen.get(k) is v or seen.get(k) == v)}
+    rec.count('public_arguments_compared')
+    if bad or seen.get('content') is not case['content'] and seen.get('content') != case['content']:
+        rec.deviation(prop, 'public-argument-not-forwarded', {'function': fn, 'encoder_got_vs_user_passed': bad})
